@@ -70,6 +70,15 @@ def compare_with_model(tag, scan, recs, method, out, cfg=None, n=None, keep_unma
     if "error" in m:
         return [{"what": f"{tag}: model error", "model": m}]
     want_lines = out["lines"] if method != "ff" else None
+    # `limit_collection`: a returned line is narrowed to the indexes the collect() function set while matching it.  The run-loop
+    # model returns whole records; the projection is applied here from the recorded post-call state of the matcher.
+    limits = {c["idx"]: e.get("limit") or [] for c, e in zip(out.get("calls") or [], out.get("script") or [])}
+    if any(limits.values()) and "yielded" in m:
+        try:
+            m = dict(m)
+            m["lines"] = [[rec[k] for k in limits.get(j, [])] if limits.get(j) else rec for rec, j in zip(m["lines"], m["yielded"])]
+        except (IndexError, TypeError):
+            return [{"what": f"{tag}: a line shorter than a collected index was returned without an exception", "model": m["lines"]}]
     if want_lines is not None and m["lines"] != want_lines:
         dis.append({"what": f"{tag}: lines", "real": want_lines, "model": m["lines"]})
     for key in ("flags", "scan_count", "calls"):
@@ -93,6 +102,9 @@ def gen_case_methods(seed, i):
     mp = G.match_part(r, prof)
     sp = G.scan_part(r, len(recs))
     policy = r.choice([["collect", "print"], ["collect"], ["collect", "stop"], ["collect", "fail"], ["print", "fail", "stop"]])
+    if r.random() < 0.25:
+        # the collect() function: the returned lines are narrowed, for every entry point alike
+        mp += " " + r.choice(["collect(0)", "collect(1, 0)", 'collect("a", "b")', 'collect("n")', "collect(2)", '#b -> collect("a")'])
     return {"recs": recs, "scan": sp, "match": mp, "policy": policy, "profile": prof}
 
 
